@@ -25,6 +25,7 @@ pub uninterp spec fn rsinh(x: real) -> real;
 pub uninterp spec fn rcosh(x: real) -> real;
 pub uninterp spec fn rsin(x: real) -> real;
 pub uninterp spec fn rcos(x: real) -> real;
+pub uninterp spec fn rpowf(x: real, y: real) -> real;
 pub uninterp spec fn PI() -> real;
 pub uninterp spec fn RGAS() -> real;
 pub open spec fn rabs(x: real) -> real { if x >= 0real { x } else { -x } }
